@@ -12,10 +12,22 @@ for a in sys.argv[3:]:
         extra = a.split("=", 1)[1].split(",")
     if a.startswith("--wave"):
         wave = a.split("=", 1)[1]
+feat = ""
+srcdir = None
+label = None
+for a in sys.argv[3:]:
+    if a.startswith("--features"):
+        feat = " --features " + a.split("=", 1)[1]
+    if a.startswith("--src"):
+        srcdir = a.split("=", 1)[1]
+    if a.startswith("--label"):
+        label = a.split("=", 1)[1]
 src = "/tmp/seed%s_%s/out/%s" % (wave, prop, n)
+if srcdir:
+    src = srcdir
 if not os.path.exists(src):
     src = "/var/tmp/seed_out/seed%s_%s/out/%s" % (wave, prop, n)
-wt = "/tmp/wt_eval_%s_%s%s" % (prop, n, wave)
+wt = "/tmp/wt_eval_%s_%s%s" % (prop, label or n, wave)
 env = dict(os.environ, CARGO_TARGET_DIR=wt + "/target", CARGO_NET_OFFLINE="true")
 def sh(cmd, cwd=None, timeout=1800):
     p = subprocess.run(cmd, shell=True, cwd=cwd, env=env, capture_output=True, text=True, timeout=timeout)
@@ -50,11 +62,11 @@ try:
     m = re.search(r"(\d+) tests run: (\d+) passed", out)
     res["suite_with_change"] = m.group(0) if m else out[-300:]
     res["suite_passes_with_change"] = bool(m and m.group(1) == m.group(2) and int(m.group(1)) >= 82)
-    rc, out = sh("cargo test --offline --test seed_demo 2>&1 | tail -15", cwd=wt)
+    rc, out = sh("cargo test --offline%s --test seed_demo 2>&1 | tail -15" % feat, cwd=wt)
     res["demo_fails_with_change"] = ("test result: FAILED" in out) or ("error: test failed" in out) or ("SIGABRT" in out) or ("SIGSEGV" in out)
     res["demo_with_change_tail"] = out[-400:]
     sh("git checkout -- src", cwd=wt)
-    rc, out = sh("cargo test --offline --test seed_demo 2>&1 | tail -8", cwd=wt)
+    rc, out = sh("cargo test --offline%s --test seed_demo 2>&1 | tail -8" % feat, cwd=wt)
     res["demo_passes_without_change"] = ("test result: ok" in out) and ("FAILED" not in out)
     res["demo_without_change_tail"] = out[-300:]
     # our checks, against the scratch worktree with the change applied (never /repo)
@@ -74,7 +86,7 @@ confirmed = res.get("suite_passes_with_change") and res.get("demo_fails_with_cha
 res["confirmed"] = bool(confirmed)
 res["checks"] = checks
 res["caught_by"] = [p for p, c in checks.items() if c["exit"] == 1]
-d = "/verif/seeded/%s-%s%s" % (prop, n, wave)
+d = "/verif/seeded/%s-%s%s" % (prop, label or n, wave)
 if confirmed:
     os.makedirs(d, exist_ok=True)
     shutil.copy(use, d + "/patch.diff")
